@@ -199,8 +199,11 @@ func (ex *Exec) oblige(st *State, kind, what string, claim *Term, instr ssa.Inst
 	if ex.discover != nil || ex.quiet > 0 {
 		return
 	}
-	if claim.IsTrue() || st.pc.IsFalse() {
-		// still count it: discharged by simplification
+	if ex.rootContract != nil && ex.rootContract.NoSafety && (panicKinds[kind] || kind == "alloc" || kind == "fpconv") {
+		// the contract covers only its stated clauses: the safety sweep of this function is
+		// not generated (and is listed as unchecked in the evidence)
+		ex.usedExterns["safety sweep not generated for "+ex.rootName+" (nosafety)"] = true
+		return
 	}
 	name := ex.rootName + "/" + kind
 	if what != "" {
@@ -730,6 +733,16 @@ func (ex *Exec) havocPtrIndexes(p *PtrInfo) *PtrInfo {
 }
 
 // rangeIndexAlloc finds the hidden index cell of a range-over-slice/array/string loop.
+// isMapRangeLoop: the loop header advances a map/string iterator (ssa.Next).
+func isMapRangeLoop(li *loopInfo) bool {
+	for _, in := range li.header.Instrs {
+		if _, ok := in.(*ssa.Next); ok {
+			return true
+		}
+	}
+	return false
+}
+
 func rangeIndexAlloc(li *loopInfo) *ssa.Alloc {
 	for _, in := range li.header.Instrs {
 		if bo, ok := in.(*ssa.BinOp); ok && bo.Op == token.ADD {
@@ -755,6 +768,28 @@ func (ex *Exec) enterLoop(fr *Frame, li *loopInfo, st *State) *State {
 			ex.curClause = loopName + " invariant " + inv.Label
 			c := ex.evalSpecBool(env, inv.Expr)
 			ex.obligeSpec(st, "inv-entry", loopName+":"+inv.Label, c, inv, nil)
+		}
+	}
+	// termination argument (functions under the no-spin property): a decreases clause, a
+	// range loop, or a stated consumes-input assumption; a loop without any is an obligation
+	// that fails, so that a new loop cannot slip in unexamined
+	if ex.discover == nil && ex.rootContract != nil && hasProp(ex.rootContract.Props, "C03") && !(ex.rootContract.NoSafety) {
+		switch {
+		case lc != nil && len(lc.Decreases) > 0:
+		case rangeIndexAlloc(li) != nil || isMapRangeLoop(li):
+		case lc != nil && lc.ReadsInput != "":
+			ex.usedExterns["termination of "+ex.rootName+" "+loopName+" assumed: "+lc.ReadsInput] = true
+		default:
+			n := len(ex.obls)
+			saved := st.pc
+			ex.oblige(st, "termination", loopName, ex.tb.False, nil, "no termination argument for this loop (decreases clause, range loop, or a stated reads-input assumption)")
+			st.pc = saved
+			if len(ex.obls) > n {
+				ex.obls[n].Props = []string{"C03"}
+				if li.minPos.IsValid() {
+					ex.obls[n].Pos = ex.prog.fset.Position(li.minPos)
+				}
+			}
 		}
 	}
 	// 2. havoc what the loop writes
